@@ -145,17 +145,31 @@ def step (s : St) : List String → St × String
     -- backendpb: rate-limit settings absent (0), disabled (1), enabled (2); then through the cache
     let w : Option Agd.ProfileCache.WireRate := if mode == "0" then none else
       some { enabled := mode == "2", rps := 5, cidr := [] }
-    let r := Agd.ProfileCache.ratelimiterFromPb (Agd.ProfileCache.ratelimiterToPb (Agd.ProfileCache.backendRate w))
-    (s, (match Agd.ProfileCache.backendRate w with | .global => "global" | .default _ _ => "default") ++ " " ++
-        (match r with | .global => "global" | .default _ _ => "default"))
+    let r := Agd.ProfileCache.ratelimiterFromPb 1024 (Agd.ProfileCache.ratelimiterToPb (Agd.ProfileCache.backendRate 1024 w))
+    (s, (match Agd.ProfileCache.backendRate 1024 w with | .global => "global" | .default _ _ _ => "default") ++ " " ++
+        (match r with | .global => "global" | .default _ _ _ => "default"))
+  | ["rlprobe", estStorage, estCache, rps, len, tries] =>
+    -- a custom limiter made by backendpb with one estimate, and the same read back from the cache
+    -- by a storage created with another: how many requests pass after a response of `len` bytes
+    let live := Agd.ProfileCache.backendRate (nat! estStorage) (some { enabled := true, rps := nat! rps, cidr := [] })
+    let back := Agd.ProfileCache.ratelimiterFromPb (nat! estCache) (Agd.ProfileCache.ratelimiterToPb live)
+    let show1 (r : Agd.ProfileCache.Ratelimiter) : String :=
+      match r.passesAfter (nat! len) (nat! tries) with | none => "panic" | some n => toString n
+    (s, show1 live ++ " " ++ show1 back)
+  | ["ctxdl", timeout] =>
+    -- internal/cmd ctxWithOptionalTimeout: has the refresh context a deadline?
+    (s, match Agd.ProfileDB.ctxDeadline (nat! timeout) 0 with | none => "none" | some _ => "some")
+  | ["needfull", fullIvl, retryIvl, sinceFull, sinceErr] =>
+    (s, showB (Agd.ProfileDB.needsFullSync (int! fullIvl) (int! retryIvl) (int! sinceFull)
+      (if sinceErr == "-" then none else some (int! sinceErr))))
   | ["bpaccess", mode] =>
     let w : Option Agd.ProfileCache.WireAccess := if mode == "0" then none else
       some { enabled := mode == "2", cfg := ⟨[], [], [], [], []⟩ }
     (s, match Agd.ProfileCache.backendAccess w with | none => "empty" | some _ => "default")
   | ["rtrate", _] =>
     -- a custom limiter built with any `Enabled` (which `NewDefaultRatelimiter` ignores) through the cache
-    (s, match Agd.ProfileCache.ratelimiterFromPb (Agd.ProfileCache.ratelimiterToPb (.default [] 1)) with
-      | .global => "global" | .default _ _ => "default")
+    (s, match Agd.ProfileCache.ratelimiterFromPb 1024 (Agd.ProfileCache.ratelimiterToPb (.default [] 1 1024)) with
+      | .global => "global" | .default _ _ _ => "default")
   | "addr" :: bytes =>
     -- netip: UnmarshalBinary of the bytes, and MarshalBinary of the result
     (s, match Agd.ProfileCache.Addr.unmarshal (bytes.map nat!) with
